@@ -48,6 +48,19 @@ Chunks(xs, c) == [i \in 1..((Len(xs) + c - 1) \div c) |->
                      SeqV(SubSeq(xs, (i - 1) * c + 1, IF i * c > Len(xs) THEN Len(xs) ELSE i * c))]
 Zip2(xs, ys) == [i \in 1..(IF Len(xs) < Len(ys) THEN Len(xs) ELSE Len(ys)) |-> StructV(<<xs[i], ys[i]>>)]
 Mn(a, b) == IF a < b THEN a ELSE b
+\* aggregate(g, init, f): init first, then the running values (std/generator.md)
+SumsFrom(xs, init) == <<IntV(init)>> \o Sums(xs, 1, init)
+RECURSIVE NthMatch(_, _, _, _), Flat(_, _), Prod(_, _, _)
+NthMatch(p, xs, i, left) ==
+    IF i > Len(xs) THEN NoneV
+    ELSE IF ApplyPred(p, xs[i]) THEN (IF left = 0 THEN SomeV(xs[i]) ELSE NthMatch(p, xs, i + 1, left - 1))
+    ELSE NthMatch(p, xs, i + 1, left)
+Flat(parts, i) == IF i > Len(parts) THEN <<>> ELSE parts[i] \o Flat(parts, i + 1)
+\* cartesian product, the first generator varying slowest
+Prod(xs, ys, i) == IF i > Len(xs) THEN <<>>
+                   ELSE [j \in 1..Len(ys) |-> StructV(<<xs[i], ys[j]>>)] \o Prod(xs, ys, i + 1)
+\* number of elements of an infinite prefix that satisfy p
+Matches(p, xs) == Len(Filter(p, xs, 1))
 
 VARIABLES pool, step, r
 gvars == <<pool, step, r>>
@@ -68,8 +81,11 @@ NewVal(v, term) == [n |-> Name(Len(pool) + 1), k |-> "val", ety |-> "int", inf |
 NewErr(term) == [n |-> Name(Len(pool) + 1), k |-> "val", ety |-> "int", inf |-> FALSE, err |-> TRUE, v |-> <<>>, term |-> term]
 
 Source(rr) ==
-    LET c == Ch(1..5, rr[1])
-    IN IF c = 1 THEN LET n == Ch(0..5, rr[2]) xs == [i \in 1..n |-> IntV(Ch(-1..4, rr[2 + i]))]
+    LET c == Ch(1..6, rr[1])
+    IN IF c = 6 THEN LET b == Ch(1..7, rr[2])
+                     IN NewGen([i \in 1..b |-> IntV(i)], FALSE, "int",
+                               Raw("successors_until(1, (x: int) -> {if(x < " \o ToString(b) \o ", some(x + 1), none())})"))
+       ELSE IF c = 1 THEN LET n == Ch(0..5, rr[2]) xs == [i \in 1..n |-> IntV(Ch(-1..4, rr[2 + i]))]
                      IN IF n = 0 THEN NewGen(<<>>, FALSE, "int", Raw("range(1, 1).to_generator()"))
                         ELSE NewGen(xs, FALSE, "int", Call("to_generator", <<[k |-> "arr", items |-> [i \in 1..n |-> Lit(xs[i].v)]]>>))
        ELSE IF c = 2 THEN NewGen([i \in 1..PL |-> IntV(i - 1)], TRUE, "int", Raw("count().to_generator()"))
@@ -84,7 +100,7 @@ Op(rr) ==
     IN IF S = {} THEN Source(rr)
     ELSE
     LET i == Ch(S, rr[1])  e == pool[i]  xs == e.v  n == Len(xs)
-        o == Ch(1..22, rr[2])
+        o == Ch(1..34, rr[2])
         int == e.ety = "int"
     IN
     CASE o = 1 /\ int -> LET f == Fns[Ch(1..3, rr[3])]
@@ -118,6 +134,52 @@ Op(rr) ==
       [] o = 19 /\ int /\ n > 8 -> LET k == Ch(0..5, rr[3]) IN NewVal(xs[k + 1], Call("get", <<V(i), Lit(k)>>))
       [] o = 20 /\ int /\ ~e.inf -> NewVal(IntV(SumAll(xs, 1)), Call("reduce", <<V(i), Lit(0), Raw("(a: int, b: int) -> {a + b}")>>))
       [] o = 21 /\ int /\ n >= 1 /\ (~e.inf) -> NewGen(SubSeq(Repeat(xs, 1 + 40 \div n), 1, 40), TRUE, "int", Call("repeat", <<V(i)>>))
+      \* ---- second batch: the remaining consumers and adaptors of std/generator.md ----
+      [] o = 22 /\ int -> LET a == Ch(-2..3, rr[3])
+                  IN NewGen(IF e.inf THEN SubSeq(SumsFrom(xs, a), 1, Mn(PL, n + 1)) ELSE SumsFrom(xs, a), e.inf, "int",
+                            Call("aggregate", <<V(i), Lit(a), Raw("(a: int, b: int) -> {a + b}")>>))
+      [] o = 23 /\ int /\ ~e.inf -> LET p == Preds[Ch(1..3, rr[3])]
+                  IN NewVal(BoolV(\A j \in 1..n : ApplyPred(p, xs[j])), Call("all", <<V(i), Lam(p)>>))
+      [] o = 24 /\ int /\ ~e.inf -> LET p == Preds[Ch(1..3, rr[3])]
+                  IN NewVal(BoolV(\E j \in 1..n : ApplyPred(p, xs[j])), Call("any", <<V(i), Lam(p)>>))
+      [] o = 25 /\ int /\ ~e.inf -> LET p == Preds[Ch(1..3, rr[3])]
+                  IN NewVal(NthMatch(p, xs, 1, 0), Call("first", <<V(i), Lam(p)>>))
+      [] o = 26 /\ int /\ ~e.inf -> LET p == Preds[Ch(1..3, rr[3])] k == Ch(0..3, rr[4])
+                  IN NewVal(NthMatch(p, xs, 1, k), Call("nth", <<V(i), Lit(k), Lam(p)>>))
+      \* searching an infinite stream: only when the match is inside the carried prefix
+      [] o = 27 /\ int /\ e.inf -> LET p == Preds[Ch(1..3, rr[3])] k == Ch(0..3, rr[4])
+                  IN IF Matches(p, xs) > k THEN NewVal(NthMatch(p, xs, 1, k), Call("nth", <<V(i), Lit(k), Lam(p)>>))
+                     ELSE Source(rr)
+      \* filter of an infinite stream: only when plenty of the prefix matches (the stream stays infinite)
+      [] o = 28 /\ int /\ e.inf -> LET p == Preds[Ch(1..3, rr[3])]
+                  IN IF Matches(p, xs) >= 14 THEN NewGen(Filter(p, xs, 1), TRUE, "int", Call("filter", <<V(i), Lam(p)>>))
+                     ELSE Source(rr)
+      \* take_while / skip_until of an infinite stream: only when the cut is inside the prefix
+      [] o = 29 /\ int /\ e.inf -> LET p == Preds[Ch(1..3, rr[3])] c == TakeWhile(p, xs, 1)
+                  IN IF c < n THEN NewGen(SubSeq(xs, 1, c), FALSE, "int", Call("take_while", <<V(i), Lam(p)>>))
+                     ELSE Source(rr)
+      [] o = 30 /\ int /\ e.inf -> LET p == Preds[Ch(1..3, rr[3])] c == SkipUntil(p, xs, 1)
+                  IN IF c < n /\ n - c > 20 THEN NewGen(SubSeq(xs, c + 1, n), TRUE, "int", Call("skip_until", <<V(i), Lam(p)>>))
+                     ELSE Source(rr)
+      \* flatten of a sequence of finite generators (the last one may be infinite)
+      [] o = 31 /\ e.ety \in {"int", "pair"} ->
+                  LET S2 == Gens(e.ety, FALSE)
+                  IN IF S2 = {} THEN Source(rr)
+                     ELSE LET a == Ch(S2, rr[3]) b == Ch(S2, rr[4])
+                              all == pool[a].v \o pool[b].v \o xs
+                          IN IF ~e.inf /\ Len(all) > 40 THEN Source(rr)      \* finite streams are never cut
+                             ELSE NewGen(SubSeq(all, 1, Mn(PL, Len(all))), e.inf, e.ety,
+                                         Call("flatten", <<[k |-> "arr", items |-> <<V(a), V(b), V(i)>>]>>))
+      \* cartesian product of two finite generators (the first may be infinite: its first element pairs first)
+      [] o = 32 /\ int /\ ~e.inf ->
+                  LET S2 == Gens("int", FALSE) j == Ch(S2, rr[3])
+                  IN IF n * Len(pool[j].v) > 30 THEN Source(rr)
+                     ELSE NewGen(Prod(xs, pool[j].v, 1), FALSE, "pair", Call("product", <<V(i), V(j)>>))
+      [] o = 33 /\ int /\ ~e.inf -> LET a == Ch(-2..3, rr[3]) d == Ch({-2, -1, 1, 2, 3}, rr[4])
+                  IN NewGen([j \in 1..n |-> StructV(<<IntV(a + (j - 1) * d), xs[j]>>)], FALSE, "pair",
+                            Call("enumerate", <<V(i), Lit(a), Lit(d)>>))
+      [] o = 34 /\ int /\ n >= 1 /\ ~e.inf ->
+                  NewVal(IntV(SumAll(xs, 1)), Call("reduce", <<V(i), Raw("(a: int, b: int) -> {a + b}")>>))
       [] OTHER -> Source(rr)
 
 Init == pool = <<>> /\ step = 0 /\ r = <<>>
